@@ -41,6 +41,14 @@ template<unsigned nbits> struct IntBlk {
 				std::printf("blk integer %u %s %s %s => ", nbits, opname(op), a.hex().c_str(), b.hex().c_str());
 				each([&](auto o) { return decltype(o)::bin(op, a, b); });
 			}
+			if ((i & 15) == 0) {
+				// divisor -1: the exact-fit instantiation takes the native fast path (negation), the others the long division
+				Big m1 = Big::ones(nbits), x = (i & 16) ? a : Big::pow2(nbits - 1).plus(int64_t(g.below(3)), nbits);
+				for (Op op : { DIV, REM }) {
+					std::printf("blk integer %u %s %s %s => ", nbits, opname(op), x.hex().c_str(), m1.hex().c_str());
+					each([&](auto o) { return decltype(o)::bin(op, x, m1); });
+				}
+			}
 			if (i & 1) continue;
 			for (Op op : uops) {
 				std::printf("blk integer %u %s %s => ", nbits, opname(op), a.hex().c_str());
@@ -74,6 +82,14 @@ template<unsigned nbits> struct BbBlk {
 				if ((op == DIV || op == REM) && b.iszero()) continue;
 				std::printf("blk bb %u %s %s %s => ", nbits, opname(op), a.hex().c_str(), b.hex().c_str());
 				each([&](auto o) { return decltype(o)::bin(op, a, b); });
+			}
+			if ((i & 15) == 0) {
+				// divisor -1: the exact-fit instantiation takes the native fast path (negation), the others the long division
+				Big m1 = Big::ones(nbits), x = (i & 16) ? a : Big::pow2(nbits - 1).plus(int64_t(g.below(3)), nbits);
+				for (Op op : { DIV, REM }) {
+					std::printf("blk bb %u %s %s %s => ", nbits, opname(op), x.hex().c_str(), m1.hex().c_str());
+					each([&](auto o) { return decltype(o)::bin(op, x, m1); });
+				}
 			}
 			if (i & 1) continue;
 			for (Op op : uops) {
